@@ -56,27 +56,30 @@ Qed.
 Lemma LOGSUB_eq c a b t s : run_concrete F r32 (PLogSub c a b t) s = run_generic F r32 (PLogSub c a b t) s.
 Proof. reflexivity. Qed.
 
-(* every pair but Abs/ABS *)
+(* HEAD 2fc8894: ABS switches on the ARGUMENT's sign with a zero case, like Abs *)
+Lemma ABS_eq c a s : run_concrete F r32 (PAbs c a) s = run_generic F r32 (PAbs c a) s.
+Proof. reflexivity. Qed.
+Lemma ABS_is_do_ABS_concrete c a s : ABS F r32 c a s = do_ABS_concrete F r32 c (Rg a) s.
+Proof. reflexivity. Qed.
+
+(* kept from round 1 (the hypothesis is no longer needed by any theorem; every pair satisfies the conclusion) *)
 Definition not_abs (p : spair) : Prop := match p with PAbs _ _ => False | _ => True end.
-Lemma scalar_pairs_agree p s : not_abs p -> run_concrete F r32 p s = run_generic F r32 p s.
+Lemma scalar_pairs_agree_all p s : run_concrete F r32 p s = run_generic F r32 p s.
 Proof.
-  destruct p; intros H; try contradiction.
+  destruct p.
   - apply NEG_eq. - apply ADD_eq. - apply SUB_eq. - apply MUL_eq. - apply DIV_eq. - apply POW_eq.
   - apply SQRT_eq. - apply EXP_eq. - apply LOG_eq. - apply LOG1P_eq. - apply MIN_eq. - apply MAX_eq.
-  - apply SETp_eq. - apply LOGADD_eq. - apply LOGSUB_eq.
+  - apply ABS_eq. - apply SETp_eq. - apply LOGADD_eq. - apply LOGSUB_eq.
 Qed.
+Lemma scalar_pairs_agree p s : not_abs p -> run_concrete F r32 p s = run_generic F r32 p s.
+Proof. intros _. apply scalar_pairs_agree_all. Qed.
 Lemma scalar_predicates_agree p eps s : pred_concrete F r32 p eps s = pred_generic F r32 p eps s.
 Proof. destruct p; reflexivity. Qed.
 
-(* ABS agrees with Abs exactly when the receiver's old sign happens to select the branch the operand's
-   sign selects: receiver negative and operand negative, or receiver non-negative and operand positive *)
-Lemma ABS_agrees_when c a s :
-  (g_sign F r32 s c = (-1)%Z /\ sign_of F (rval (s a)) = (-1)%Z) \/
-  (g_sign F r32 s c <> (-1)%Z /\ sign_of F (rval (s a)) = 1%Z) ->
-  run_concrete F r32 (PAbs c a) s = run_generic F r32 (PAbs c a) s.
-Proof.
-  cbn. unfold ABS, do_abs. cbn [rd]. intros [[H1 H2]|[H1 H2]]; rewrite H2; cbn.
-  - rewrite H1. reflexivity.
-  - destruct (Z.eqb (g_sign F r32 s c) (-1)) eqn:E; [apply Z.eqb_eq in E; contradiction|reflexivity].
-Qed.
+(* the Sign() method as the predicate model has it (getter of the register's kind) is the sign of the stored value
+   whenever the stored value is a value of the register's kind (a Real32 holds a float32): the form C01's Abs and
+   the concrete ABS use *)
+Lemma Sign_is_sign_of_stored s a :
+  rndk r32 (rk (s a)) (rval (s a)) = rval (s a) -> g_sign F r32 s a = sign_of F (rval (s a)).
+Proof. intros H. unfold g_sign, getk, sign_of. rewrite H. reflexivity. Qed.
 End P.
